@@ -1,16 +1,44 @@
 (* C10 — The model does not depend on the order in which statements are written. *)
-From GX Require Import Base Expr Topo Ode Target Sem Codegen Load Perm.
+From GX Require Import Base Expr Topo Ode Target Sem Codegen Load Perm LoadPerm.
 From Coq Require Import Permutation.
 Open Scope string_scope.
 Open Scope list_scope.
 
-(* The loader collects the atoms of a text into sets; a permutation of blocks, of entries in a
-   declaration block or of lines in an expression block presents the same sets in another order,
-   i.e. an [ode_equiv] model.  (That the loader mirror maps permuted item lists to ode_equiv models
-   is checked by execution on every generated permutation, not proved: C10_partial.)  For
-   ode_equiv models everything code generation computes is identical: *)
+(* The loader collects the atoms of a text into sets.  [ops items] is the sequence of atomic insertions
+   (one per entry / line and component) the loader performs for an item list; permuting blocks, entries
+   inside a states / parameters block or lines inside an expressions block permutes that sequence
+   (C10_the_permutations_of_the_property_permute_the_insertions).  If the first text loads, so does the
+   permuted one, to an equivalent model, and everything code generation computes is identical - for the
+   loader mirror and the mirror generators, whose agreement with the implementation is checked on every
+   generated model and every generated permutation: *)
+Theorem C10_permuted_text_loads_to_the_same_model_and_the_same_code :
+  forall items1 items2 o1,
+    Permutation (ops items1) (ops items2) ->
+    load items1 = Ok o1 ->
+    exists o2, load items2 = Ok o2
+      /\ ode_equiv o1 o2
+      /\ (forall ru, sorted_names o1 ru = sorted_names o2 ru)
+      /\ sorted_states o1 = sorted_states o2
+      /\ param_names o1 = param_names o2 /\ missing_names o1 = missing_names o2
+      /\ (forall ru order, gen_rhs o1 ru order = gen_rhs o2 ru order)
+      /\ (forall ru order, gen_monitor o1 ru order = gen_monitor o2 ru order)
+      /\ (forall ru name order, gen_euler o1 ru name order = gen_euler o2 ru name order).
+Proof. exact permuted_text_same_code. Qed.
+Print Assumptions C10_permuted_text_loads_to_the_same_model_and_the_same_code.
 
-Theorem C10_partial_statement_order_and_slot_layout_do_not_depend_on_textual_order :
+Theorem C10_the_permutations_of_the_property_permute_the_insertions :
+  (forall items1 items2, Permutation items1 items2 -> Permutation (ops items1) (ops items2))
+  /\ (forall pre post comps es es', Permutation es es' ->
+        Permutation (ops (pre ++ IStates comps es :: post)) (ops (pre ++ IStates comps es' :: post))
+        /\ Permutation (ops (pre ++ IParams comps es :: post)) (ops (pre ++ IParams comps es' :: post)))
+  /\ (forall pre post comps ls ls', Permutation ls ls' ->
+        Permutation (ops (pre ++ IExprs comps ls :: post)) (ops (pre ++ IExprs comps ls' :: post))).
+Proof. split; [exact ops_perm_blocks|split; [exact ops_perm_entries|exact ops_perm_lines]]. Qed.
+Print Assumptions C10_the_permutations_of_the_property_permute_the_insertions.
+
+(* the two halves separately: for ode_equiv models everything code generation computes is identical *)
+
+Theorem C10_statement_order_and_slot_layout_do_not_depend_on_list_order :
   forall o o', ode_equiv o o' -> unique_assign_names o ->
     (forall ru, sorted_names o ru = sorted_names o' ru)
     /\ sorted_states o = sorted_states o'
@@ -27,9 +55,9 @@ Proof.
   - exact (deriv_names_inv o o' E).
   - exact (missing_names_inv o o' E).
 Qed.
-Print Assumptions C10_partial_statement_order_and_slot_layout_do_not_depend_on_textual_order.
+Print Assumptions C10_statement_order_and_slot_layout_do_not_depend_on_list_order.
 
-Theorem C10_partial_generated_code_does_not_depend_on_textual_order :
+Theorem C10_generated_code_does_not_depend_on_list_order :
   forall o o', ode_equiv o o' -> unique_assign_names o ->
     (forall ru order, gen_rhs o ru order = gen_rhs o' ru order)
     /\ (forall ru order, gen_monitor o ru order = gen_monitor o' ru order)
@@ -40,7 +68,7 @@ Proof.
   - exact (gen_monitor_inv o o' E U).
   - exact (gen_euler_inv o o' E U).
 Qed.
-Print Assumptions C10_partial_generated_code_does_not_depend_on_textual_order.
+Print Assumptions C10_generated_code_does_not_depend_on_list_order.
 
 (* use before definition is allowed: a definition is found by name wherever it stands *)
 Theorem C10_definitions_are_found_by_name_wherever_they_stand :
